@@ -274,49 +274,49 @@ theorem inv_reload {srt : Sorter} (hs : SortSpec srt) (brd : List Rec) (users : 
 
 /-! ### the attribute rules -/
 
-/-- the attribute and level rules of `mNewbrd`, bit by bit. -/
+/-- the attribute and level rules of `mNewbrd`, bit by bit, for both values of DEFAULT_AUTOCPLOG. -/
 theorem attr_rules (q : Req) :
     hasBit (buildAttr q) BRD_GROUP = q.isGroup ∧
-    hasBit (buildAttr q) BRD_CPLOG = !q.isGroup ∧
+    hasBit (buildAttr q) BRD_CPLOG = (!q.isGroup && (q.autoCpLog || hasBit q.attr BRD_CPLOG)) ∧
     hasBit (buildAttr q) BRD_HIDE = hasBit q.attr BRD_HIDE ∧
     restricted q = (!hasBit q.ulevel PERM_BOARD || hasBit q.attr BRD_HIDE) ∧
     hasBit (buildAttr q) BRD_POSTMASK = (!restricted q && hasBit q.attr BRD_POSTMASK) ∧
     buildLevel q = (if restricted q then 0 else q.level) := by
-  have hauto : Gen.NewBoard.defaultAutoCpLog = true := rfl
+  have hCC : hasBit BRD_CPLOG BRD_CPLOG = true := by decide
+  have hCG : hasBit BRD_CPLOG BRD_GROUP = false := by decide
+  have hGG : hasBit BRD_GROUP BRD_GROUP = true := by decide
+  have hCH : hasBit BRD_CPLOG BRD_HIDE = false := by decide
+  have hGH : hasBit BRD_GROUP BRD_HIDE = false := by decide
+  have hCP : hasBit BRD_CPLOG BRD_POSTMASK = false := by decide
+  have hGP : hasBit BRD_GROUP BRD_POSTMASK = false := by decide
   have a1G : hasBit (attr1 q) BRD_GROUP = q.isGroup := by
-    unfold attr1; simp only [hauto, if_true]
-    cases q.isGroup
-    · simp only [Bool.false_eq_true, if_false]; exact hasBit_clearBits_self _ _ (by decide)
-    · simp only [if_true]
-      rw [hasBit_clearBits_other _ _ _ (by decide), hasBit_or]
-      have : hasBit BRD_GROUP BRD_GROUP = true := by decide
-      simp [this]
-  have a1C : hasBit (attr1 q) BRD_CPLOG = !q.isGroup := by
-    unfold attr1; simp only [hauto, if_true]
-    cases q.isGroup
-    · simp only [Bool.false_eq_true, if_false]
-      rw [hasBit_clearBits_other _ _ _ (by decide), hasBit_or]
-      have : hasBit BRD_CPLOG BRD_CPLOG = true := by decide
-      simp [this]
-    · simp only [if_true]; exact hasBit_clearBits_self _ _ (by decide)
+    unfold attr1
+    cases q.isGroup <;> cases q.autoCpLog <;>
+      simp only [Bool.false_eq_true, if_false, if_true] <;>
+      first
+        | exact hasBit_clearBits_self _ _ (by decide)
+        | (rw [hasBit_clearBits_other _ _ _ (by decide), hasBit_or, hGG]; simp)
+  have a1C : hasBit (attr1 q) BRD_CPLOG = (!q.isGroup && (q.autoCpLog || hasBit q.attr BRD_CPLOG)) := by
+    unfold attr1
+    cases q.isGroup <;> cases q.autoCpLog <;>
+      simp only [Bool.false_eq_true, if_false, if_true, Bool.not_false, Bool.not_true, Bool.true_and,
+        Bool.false_and, Bool.false_or, Bool.true_or]
+    · rw [hasBit_clearBits_other _ _ _ (by decide)]
+    · rw [hasBit_clearBits_other _ _ _ (by decide), hasBit_or, hCC, Bool.or_true]
+    · exact hasBit_clearBits_self _ _ (by decide)
+    · exact hasBit_clearBits_self _ _ (by decide)
   have a1H : hasBit (attr1 q) BRD_HIDE = hasBit q.attr BRD_HIDE := by
-    unfold attr1; simp only [hauto, if_true]
-    have h1 : hasBit BRD_CPLOG BRD_HIDE = false := by decide
-    have h2 : hasBit BRD_GROUP BRD_HIDE = false := by decide
-    cases q.isGroup
-    · simp only [Bool.false_eq_true, if_false]
-      rw [hasBit_clearBits_other _ _ _ (by decide), hasBit_or, h1, Bool.or_false]
-    · simp only [if_true]
-      rw [hasBit_clearBits_other _ _ _ (by decide), hasBit_or, hasBit_or, h1, h2, Bool.or_false, Bool.or_false]
+    unfold attr1
+    cases q.isGroup <;> cases q.autoCpLog <;>
+      simp only [Bool.false_eq_true, if_false, if_true] <;>
+      rw [hasBit_clearBits_other _ _ _ (by decide)] <;>
+      simp only [hasBit_or, hCH, hGH, Bool.or_false]
   have a1P : hasBit (attr1 q) BRD_POSTMASK = hasBit q.attr BRD_POSTMASK := by
-    unfold attr1; simp only [hauto, if_true]
-    have h1 : hasBit BRD_CPLOG BRD_POSTMASK = false := by decide
-    have h2 : hasBit BRD_GROUP BRD_POSTMASK = false := by decide
-    cases q.isGroup
-    · simp only [Bool.false_eq_true, if_false]
-      rw [hasBit_clearBits_other _ _ _ (by decide), hasBit_or, h1, Bool.or_false]
-    · simp only [if_true]
-      rw [hasBit_clearBits_other _ _ _ (by decide), hasBit_or, hasBit_or, h1, h2, Bool.or_false, Bool.or_false]
+    unfold attr1
+    cases q.isGroup <;> cases q.autoCpLog <;>
+      simp only [Bool.false_eq_true, if_false, if_true] <;>
+      rw [hasBit_clearBits_other _ _ _ (by decide)] <;>
+      simp only [hasBit_or, hCP, hGP, Bool.or_false]
   have hr : restricted q = (!hasBit q.ulevel PERM_BOARD || hasBit q.attr BRD_HIDE) := by
     unfold restricted; rw [a1H]
   refine ⟨?_, ?_, ?_, hr, ?_, rfl⟩
